@@ -40,6 +40,11 @@ class Infeasible(BaseException):
     """Raised inside a run when the current path condition is unsatisfiable."""
 
 
+class Truncated(BaseException):
+    """The run left the stated bound (e.g. more random draws than the harness allows): the path is dropped
+    and counted, never reported as a result."""
+
+
 class NotModelled(Exception):
     """The model library was asked for something it does not model symbolically."""
 
@@ -176,6 +181,9 @@ def explore(run, max_paths=20000, deadline=None):
             res = Path(list(CTX.pc), 'ok', v, None, CTX.notes)
         except Infeasible:
             res = None
+        except Truncated:
+            res = None
+            STATS['truncated_paths'] = STATS.get('truncated_paths', 0) + 1
         except NotModelled:
             CTX = None
             raise                   # a gap in the model library is a harness error, never a program result
@@ -933,6 +941,7 @@ def xdiv(a, b):
         side = z3.Implies(b.v != 0, q * b.v == a.v)
         if c is not None:
             c.pc.append(side)
+            c.notes.setdefault('_divs', []).append((q, a.v, b.v))
     if a.plain and b.plain:
         nan = az & bz if False else z3.And(az, bz)
         inf = z3.If(z3.And(bz, z3.Not(az)), z3.If(a.v > 0, 1, -1), 0)
@@ -1151,6 +1160,47 @@ class EFP(Sym):
     def __repr__(self):
         return 'EFP(%s)' % self.v
 
+
+
+def _defer(self, o, name, rev):
+    """scalar (op) list/tuple/array: numpy converts the sequence to an array and broadcasts"""
+    from . import symnp
+    if isinstance(o, (list, tuple)) or isinstance(o, symnp.SArr) or isinstance(o, _np.ndarray):
+        a = symnp.asarray(o)
+        return symnp.binop(a, self, name) if rev else symnp.binop(self, a, name)
+    return NotImplemented
+
+
+_REFLECT = {'lt': 'gt', 'le': 'ge', 'gt': 'lt', 'ge': 'le', 'eq': 'eq', 'ne': 'ne'}
+
+
+def _install_defer(cls):
+    for nm in ('lt', 'le', 'gt', 'ge', 'eq', 'ne'):
+        orig = getattr(cls, '__%s__' % nm)
+        def mk(orig, nm):
+            def f(self, o):
+                if isinstance(o, (list, tuple)):
+                    return _defer(self, o, _REFLECT[nm], True)
+                return orig(self, o)
+            return f
+        setattr(cls, '__%s__' % nm, mk(orig, nm))
+    for nm, r in (('add', False), ('radd', True), ('sub', False), ('rsub', True), ('mul', False), ('rmul', True),
+                  ('truediv', False), ('rtruediv', True)):
+        orig = getattr(cls, '__%s__' % nm, None)
+        if orig is None:
+            continue
+        def mk2(orig, nm, r):
+            base = nm[1:] if r else nm
+            def f(self, o):
+                if isinstance(o, (list, tuple)):
+                    return _defer(self, o, base, r)
+                return orig(self, o)
+            return f
+        setattr(cls, '__%s__' % nm, mk2(orig, nm, r))
+
+
+for _c in (SInt, SBV, SFP, XR, EFP):
+    _install_defer(_c)
 
 # ---- generic helpers ---------------------------------------------------------------------------
 
